@@ -1,13 +1,23 @@
 #!/usr/bin/env python3
-"""matrix.py [mutant ids...]: which checks report which seeded change.
-Each change is applied to a scratch copy of /repo's working tree (removed afterwards); every registered check runs on the
-copy in self-test mode (no evidence written). Result: seeded/MATRIX.json  {mutant: {check: [rules that fired]}}"""
-import json, os, re, shutil, subprocess, sys, tempfile
+"""matrix.py [--todo] [mutant ids...]: which checks report which seeded change.
+Each change is applied to a scratch copy of /repo's working tree (removed afterwards); all registered checks run on the
+copy in one process in self-test mode (no evidence written). Result: seeded/MATRIX.json {mutant: {check: [rules that fired]}}.
+--todo: only the changes that have no row yet.  Development tool; not a registered command."""
+import json
+import os
+import shutil
+import subprocess
+import sys
+import tempfile
+
 VERIF = "/verif"
 checks = [c["property_id"] for c in json.load(open(VERIF + "/MANIFEST.json"))["checks"]]
-ids = sys.argv[1:] or sorted(d for d in os.listdir(VERIF + "/seeded") if os.path.exists(VERIF + "/seeded/%s/patch.diff" % d))
+ids = [a for a in sys.argv[1:] if not a.startswith("--")] or sorted(
+    d for d in os.listdir(VERIF + "/seeded") if os.path.exists(VERIF + "/seeded/%s/patch.diff" % d))
 mp = VERIF + "/seeded/MATRIX.json"
 M = json.load(open(mp)) if os.path.exists(mp) else {}
+if "--todo" in sys.argv:
+    ids = [i for i in ids if i not in M]
 for mid in ids:
     scratch = tempfile.mkdtemp(prefix="simp-matrix-")
     try:
@@ -17,14 +27,22 @@ for mid in ids:
             M[mid] = {"_status": "patch does not apply"}
             continue
         row = {}
-        for c in checks:
-            env = dict(os.environ, SIMP_REPO=scratch, VERIF_SELFTEST="1")
-            r = subprocess.run([VERIF + "/check", c], env=env, cwd=VERIF, stdout=subprocess.PIPE, stderr=subprocess.STDOUT, text=True)
-            hits = sorted({h for h in re.findall(r"SELFTEST-VIOLATION (\S+) ", r.stdout)})
-            if "internal error" in r.stdout or "Traceback" in r.stdout:
-                row[c] = ["<checker error>"]
-            elif hits:
-                row[c] = hits
+        env = dict(os.environ, SIMP_REPO=scratch, VERIF_SELFTEST="1")
+        r = subprocess.run(["python3", VERIF + "/tools/check_all.py"] + checks, env=env, cwd=VERIF,
+                           stdout=subprocess.PIPE, stderr=subprocess.STDOUT, text=True)
+        cur = None
+        for line in r.stdout.splitlines():
+            if line.startswith("### "):
+                cur = line[4:].strip()
+            elif line.startswith("SELFTEST-VIOLATION ") and cur:
+                rule = line.split()[1]
+                row.setdefault(cur, [])
+                if rule not in row[cur]:
+                    row[cur].append(rule)
+            elif line.startswith("CHECKER-ERROR") and cur:
+                row.setdefault(cur, []).append("<checker error>")
+        if "extract:" in r.stdout and "failed" in r.stdout:
+            row["_status"] = "the changed tree does not compile under the analysis configuration"
         M[mid] = row
         print(mid, row, flush=True)
     finally:
